@@ -541,9 +541,14 @@ func (a *appGenerator) makeCodegenApp() (GenApp, error) {
 func generateReadableSpec(spec []byte) string {
 	buf := &bytes.Buffer{}
 	for _, b := range string(spec) {
-		if b == '`' {
+		switch b {
+		case '`':
 			buf.WriteString("`+\"`\"+`")
-		} else {
+		case '\ufeff':
+			// a byte order mark is illegal in Go source: write it as its JSON escape (the document is JSON text, and the
+			// only place it can hold this character is inside a string)
+			buf.WriteString(`\ufeff`)
+		default:
 			buf.WriteRune(b)
 		}
 	}
